@@ -38,6 +38,9 @@ type evalCtx struct {
 	skolem bool
 	// bound: SMT names of the quantified variables in scope (outer binders)
 	bound []string
+	// lenient: an unknown identifier evaluates to an unconstrained value (ghost
+	// definitions mention names that are bound on some paths only)
+	lenient bool
 }
 
 func (c *evalCtx) fail(format string, a ...interface{}) {
@@ -250,6 +253,9 @@ func (c *evalCtx) ident(name string) tval {
 				return tval{c.r.constVal(cv.Value), o.Type()}
 			}
 		}
+	}
+	if c.lenient {
+		return tval{c.st.freshConst("undef_"+name, SInt), tInt}
 	}
 	c.fail("unknown identifier %q", name)
 	return tval{}
@@ -596,6 +602,22 @@ func (c *evalCtx) call(x *ast.CallExpr) tval {
 			c.st.seed(sk)
 			c.st.seed(Add(sk, IntLit(1)))
 			c.st.seed(Sub(sk, IntLit(1)))
+			if h, ok := goalHints[x]; ok {
+				hc := c.noSkolem().bind(name, tval{sk, tInt})
+				func() {
+					defer func() { recover() }()
+					ht := hc.eval(h)
+					if t, isT := ht.V.(Term); isT {
+						for _, p := range groundAtTerms(t.S) {
+							key := "hint:" + p
+							if !c.st.declared[key] {
+								c.st.declared[key] = true
+								c.st.cmds = append(c.st.cmds, "(assert (trg "+p+"))")
+							}
+						}
+					}
+				}()
+			}
 			body := c.bind(name, tval{sk, tInt}).term(arg(3))
 			return tval{Imp(And(Le(lo, sk), Lt(sk, hi)), body), tBool}
 		}
@@ -612,6 +634,10 @@ func (c *evalCtx) call(x *ast.CallExpr) tval {
 			var ps strings.Builder
 			for _, p := range pats {
 				ps.WriteString(" :pattern (" + p + ")")
+			}
+			// goal skolems (and quantifier bounds) are seeded with trg: a second way in
+			if trgAlt {
+				ps.WriteString(" :pattern ((trg " + q + "))")
 			}
 			return tval{mk(SBool, "(forall ((%s Int)) (! %s%s))", q, Imp(rng, body).S, ps.String()), tBool}
 		}
@@ -706,8 +732,36 @@ func (c *evalCtx) call(x *ast.CallExpr) tval {
 	case "toval":
 		a := c.eval(arg(0))
 		return tval{c.r.toVal(c.st, a.V, a.T), tAny}
+	case "arrayof":
+		// arrayof(var, KeyType, expr): the total array  var -> expr
+		name := identArg(0)
+		kt := c.parseType(exprString(arg(1)))
+		ks, ok := c.r.v.leafSort(kt)
+		if !ok {
+			c.fail("arrayof over %s", kt)
+		}
+		*c.st.fresh++
+		q := fmt.Sprintf("q_%s%d", name, *c.st.fresh)
+		body := c.noSkolem().bindQ(name, tval{Term{S: q, Sort: ks}, kt}, q).eval(arg(2))
+		bt, isT := body.V.(Term)
+		if !isT {
+			c.fail("arrayof body must be scalar")
+		}
+		as := Sort(arraySort(string(ks), string(bt.Sort)))
+		A := c.st.freshConst("arrayof", as)
+		c.st.cmds = append(c.st.cmds, fmt.Sprintf("(assert (forall ((%s %s)) (! (= (select %s %s) %s) :pattern ((select %s %s)))))", q, string(ks), A.S, q, bt.S, A.S, q))
+		gt, _ := c.r.v.ghostTypeOf("garray[" + exprString(arg(1)) + "]" + goTypeOfSort(bt.Sort))
+		return tval{A, gt}
 	case "trig":
 		return tval{mk(SBool, "(trg %s)", c.term(arg(0)).S), tBool}
+	case "touch":
+		// touch(s[i]): true; mentions the element access so that it can serve as a trigger
+		ix, ok := arg(0).(*ast.IndexExpr)
+		if !ok {
+			c.fail("touch expects an index expression")
+		}
+		sl := c.term(ix.X)
+		return tval{mk(SBool, "(trg %s)", At(sl, c.term(ix.Index)).S), tBool}
 	case "trigk":
 		kt := c.term(arg(0))
 		if kt.Sort == SStr {
@@ -852,7 +906,15 @@ func (c *evalCtx) goalParts(e ast.Expr) []goalPart {
 				var out []goalPart
 				for _, cj := range conj {
 					args := append(append([]ast.Expr(nil), x.Args[:len(x.Args)-1]...), cj)
-					out = append(out, c.goalParts(&ast.CallExpr{Fun: x.Fun, Args: args})...)
+					ne := &ast.CallExpr{Fun: x.Fun, Args: args}
+					// remember the whole body: its element accesses seed the triggers of the
+					// hypotheses when this conjunct is proved on its own
+					if h, ok := goalHints[x]; ok {
+						goalHints[ne] = h
+					} else {
+						goalHints[ne] = last
+					}
+					out = append(out, c.goalParts(ne)...)
 				}
 				return out
 			}
@@ -864,7 +926,11 @@ func (c *evalCtx) goalParts(e ast.Expr) []goalPart {
 						var out []goalPart
 						for _, sp := range sub {
 							args := append(append([]ast.Expr(nil), x.Args[:len(x.Args)-1]...), sp.e)
-							out = append(out, goalPart{&ast.CallExpr{Fun: x.Fun, Args: args}, c})
+							ne := &ast.CallExpr{Fun: x.Fun, Args: args}
+							if h, ok := goalHints[x]; ok {
+								goalHints[ne] = h
+							}
+							out = append(out, goalPart{ne, c})
 						}
 						return out
 					}
@@ -1062,4 +1128,53 @@ func substExpr(e ast.Expr, sub map[string]ast.Expr, suffix string) ast.Expr {
 		return n
 	}
 	return e
+}
+
+func goTypeOfSort(s Sort) string {
+	switch s {
+	case SInt:
+		return "int"
+	case SBool:
+		return "bool"
+	case SStr:
+		return "string"
+	}
+	return "int"
+}
+
+// trgAlt: quantifiers that have natural element-access triggers also get (trg q)
+var trgAlt = false
+
+// goalHints maps a distributed quantified conjunct to the whole body it was split from.
+var goalHints = map[ast.Expr]ast.Expr{}
+
+// groundAtTerms lists the element-access terms (at S I) of a formula that mention no bound variable.
+func groundAtTerms(body string) []string {
+	var out []string
+	seen := map[string]bool{}
+	for i := 0; i+4 <= len(body); i++ {
+		if body[i:i+4] != "(at " {
+			continue
+		}
+		depth := 0
+		j := i
+		for ; j < len(body); j++ {
+			if body[j] == '(' {
+				depth++
+			} else if body[j] == ')' {
+				depth--
+				if depth == 0 {
+					j++
+					break
+				}
+			}
+		}
+		t := body[i:j]
+		if strings.Contains(t, "q_") || seen[t] {
+			continue
+		}
+		seen[t] = true
+		out = append(out, t)
+	}
+	return out
 }
